@@ -213,6 +213,7 @@ type OCSPIssuer struct {
 	CA         *CA
 	OCSPServer []string
 	NotAfter   func() time.Time // default: now + 90 days
+	MustStaple func(names []string) bool // issue with the OCSP must-staple extension
 	Fail       func(n int, names []string) error
 	Issued     func(n int, names []string, chainPEM []byte, leaf *x509.Certificate)
 
@@ -240,7 +241,15 @@ func (i *OCSPIssuer) Issue(ctx context.Context, csr *x509.CertificateRequest) (*
 	if i.NotAfter != nil {
 		na = i.NotAfter()
 	}
-	chain, leaf, _, err := i.CA.Leaf(LeafOpts{Names: names, NotBefore: nb, NotAfter: na, Pub: csr.PublicKey, OCSPServer: i.OCSPServer})
+	lo := LeafOpts{Names: names, NotBefore: nb, NotAfter: na, Pub: csr.PublicKey, OCSPServer: i.OCSPServer}
+	var chain []byte
+	var leaf *x509.Certificate
+	var err error
+	if i.MustStaple != nil && i.MustStaple(names) {
+		chain, leaf, _, err = i.CA.LeafX(LeafXOpts{LeafOpts: lo, MustStaple: true})
+	} else {
+		chain, leaf, _, err = i.CA.Leaf(lo)
+	}
 	if err != nil {
 		return nil, err
 	}
@@ -267,13 +276,17 @@ type LeafXOpts struct {
 // LeafX signs a leaf like CA.Leaf, with an authority-information-access URL for the issuer
 // certificate and / or the TLS feature extension "status_request" (OCSP must-staple).
 func (ca *CA) LeafX(o LeafXOpts) (chainPEM []byte, leaf *x509.Certificate, keyPEM []byte, err error) {
-	k, err := ecdsa.GenerateKey(elliptic.P256(), rand.Reader)
-	if err != nil {
-		return nil, nil, nil, err
-	}
-	keyPEM, err = certmagic.PEMEncodePrivateKey(k)
-	if err != nil {
-		return nil, nil, nil, err
+	pub := o.Pub
+	if pub == nil {
+		k, err := ecdsa.GenerateKey(elliptic.P256(), rand.Reader)
+		if err != nil {
+			return nil, nil, nil, err
+		}
+		keyPEM, err = certmagic.PEMEncodePrivateKey(k)
+		if err != nil {
+			return nil, nil, nil, err
+		}
+		pub = &k.PublicKey
 	}
 	ca.mu.Lock()
 	ca.serial++
@@ -293,7 +306,7 @@ func (ca *CA) LeafX(o LeafXOpts) (chainPEM []byte, leaf *x509.Certificate, keyPE
 		tpl.ExtraExtensions = append(tpl.ExtraExtensions, pkix.Extension{
 			Id: []int{1, 3, 6, 1, 5, 5, 7, 1, 24}, Value: []byte{0x30, 0x03, 0x02, 0x01, 0x05}})
 	}
-	der, err := x509.CreateCertificate(rand.Reader, tpl, ca.Cert, &k.PublicKey, ca.Key)
+	der, err := x509.CreateCertificate(rand.Reader, tpl, ca.Cert, pub, ca.Key)
 	if err != nil {
 		return nil, nil, nil, err
 	}
@@ -303,6 +316,17 @@ func (ca *CA) LeafX(o LeafXOpts) (chainPEM []byte, leaf *x509.Certificate, keyPE
 	}
 	chainPEM = append(pem.EncodeToMemory(&pem.Block{Type: "CERTIFICATE", Bytes: der}), ca.CertPEM...)
 	return chainPEM, leaf, keyPEM, nil
+}
+
+// HasMustStaple reports whether the leaf carries the TLS feature extension (RFC 7633,
+// 1.3.6.1.5.5.7.1.24) with status_request, i.e. value 30 03 02 01 05.
+func HasMustStaple(leaf *x509.Certificate) bool {
+	for _, e := range leaf.Extensions {
+		if e.Id.String() == "1.3.6.1.5.5.7.1.24" && string(e.Value) == "\x30\x03\x02\x01\x05" {
+			return true
+		}
+	}
+	return false
 }
 
 // NewAIAServer serves the CA certificate (DER) for IssuingCertificateURL downloads and counts
